@@ -59,7 +59,14 @@ fn unlimited() -> Budget {
 }
 
 fn one(sink: &mut Sink, bd: &Budget, perdoc: bool, evs: &[Event<'static>], toks: &str) -> Option<BudgetReport> {
-    let r = h::budget_run(bd.clone(), perdoc, evs);
+    let r = match catch(|| h::budget_run(bd.clone(), perdoc, evs)) {
+        Ok(r) => r,
+        Err(msg) => {
+            sink.count("panic");
+            sink.case(&format!("c07 run {} {} {}", b(perdoc), limits_tok(bd), toks), &format!("panic {}", hex(&msg)));
+            return None;
+        }
+    };
     let ans = match &r.breach_at {
         Some((i, br)) => {
             sink.count(&format!("breach.{}", breach_tok(br).split(' ').next().unwrap()));
